@@ -216,3 +216,35 @@ Definition quantize (ce : convenv) (dm : mode) (is_dec : bool)
 Definition qty_round (dm : mode) (is_dec : bool) (p : qty) (nd : Z) : qty :=
   let m := if is_dec then dm else MHEVEN in
   mk_qty dm (round_to_quantum m (q_amt p) (pow10 (- nd))) (q_unit p).
+
+(* Unit._compare: units of one type compare by their scale *)
+Definition unit_cmp (op : cmpop) (u v : unit) : res bool :=
+  match get_factor u v with
+  | Err ETypeError => Err EIncompatibleUnits
+  | Err e => Err e
+  | Ok None => Err EUnitConversion
+  | Ok (Some f) => Ok (cmp_q op f 1)
+  end.
+
+(* operands of the binary operators: a quantity or a plain number.  Python
+   returns NotImplemented for a number in +, -, <, ... and the interpreter
+   raises TypeError after trying the reflected method. *)
+Inductive operand := OpQty (q : qty) | OpNum (k : Q).
+
+Definition op_addsub (sub : bool) (ce : convenv) (dm : mode) (x y : operand) : res qty :=
+  match x, y with
+  | OpQty p, OpQty q => qty_addsub sub ce dm p q
+  | _, _ => Err ETypeError
+  end.
+Definition op_cmp (ce : convenv) (op : cmpop) (x y : operand) : res bool :=
+  match x, y with
+  | OpQty p, OpQty q => qty_cmp ce op p q
+  | _, _ => Err ETypeError
+  end.
+(* == never raises for a number: False *)
+Definition op_eq (ce : convenv) (x y : operand) : res bool :=
+  match x, y with
+  | OpQty p, OpQty q => qty_eq ce p q
+  | OpNum a, OpNum b => Ok (qeqb a b)
+  | _, _ => Ok false
+  end.
